@@ -4,6 +4,7 @@ import os
 import regcommon as rc
 import vlib
 
+UP_PROBE = [dict(op='Write', r='r1', u='u1', data=[1]), dict(op='UpSize', r='r1', u='u1'), dict(op='GetBlob', r='r1', c='b1'), dict(op='GetBlob', r='r1', c='b2')]
 STRICT = {'K1_DeclaredTypeGoverns': False, 'F12_PushBlobUncoded': False}
 
 
@@ -19,6 +20,7 @@ def run(ctx):
     scen = rc.gen_scenarios(ctx, 40 if quick else 1500)
     # transition coverage: one history per (state, operation) pair of the model-checked universe
     scen += rc.cover_scenarios(ctx, 'OciRegistryCover_all.cfg', sample=1200 if quick else 60000)
+    scen += rc.cover_scenarios(ctx, 'OciRegistryCover_up.cfg', sample=500 if quick else None, probe=UP_PROBE)
     sp = rc.write_scenarios(ctx, scen)
     td = ctx.sub('traces')
     traces = []
